@@ -3,6 +3,7 @@ event log.  Nothing here draws random numbers except the dense reverse seeds,
 which are a pure function of (subseed, shape)."""
 import os
 import random
+import signal
 import sys
 
 import numpy
@@ -91,23 +92,54 @@ class LineFault(object):
         self.n = None
         self.fired = False
         self.exc = SimFault
+        self.depth = 0
+        self.locs = None
 
     def _global(self, frame, event, arg):
-        if frame.f_code.co_filename.startswith(self.root):
+        code = frame.f_code
+        if not code.co_filename.startswith(self.root):
+            return None
+        # Interrupts land while a node's forward or reverse kernel is in progress, i.e. while a
+        # Function.pushforward / Function.pullback / Function.xbar_from_x frame is on the stack --
+        # not in the bodies of CGraph's own methods and what they call directly: that is where a
+        # sweep's clean-up code lives, and no property (and no Python code) can promise
+        # consistency when an asynchronous exception arrives in the middle of a finally block.
+        qn = getattr(code, 'co_qualname', code.co_name)
+        if qn.startswith('Function.'):
+            self.depth += 1
+            return self._local_node
+        if self.depth > 0:
             return self._local
         return None
 
+    def _line(self, frame):
+        self.count += 1
+        if self.locs is not None:
+            self.locs.append((frame.f_code.co_filename, frame.f_lineno))
+        if self.n is not None and self.count == self.n:
+            self.fired = True
+            raise self.exc('injected interrupt at line event %d (%s:%d)' % (
+                self.count, os.path.basename(frame.f_code.co_filename), frame.f_lineno))
+
     def _local(self, frame, event, arg):
         if event == 'line':
-            self.count += 1
-            if self.n is not None and self.count == self.n:
-                self.fired = True
-                raise self.exc('injected interrupt at line event %d (%s:%d)' % (
-                    self.count, os.path.basename(frame.f_code.co_filename), frame.f_lineno))
+            self._line(frame)
         return self._local
+
+    def _local_node(self, frame, event, arg):
+        if event == 'line':
+            try:
+                self._line(frame)
+            except BaseException:
+                self.depth -= 1
+                raise
+        elif event == 'return':
+            self.depth -= 1
+        return self._local_node
 
     def start(self, n, exc):
         self.count = 0
+        self.depth = 0
         self.n = n
         self.fired = False
         self.exc = SimFault if exc == 'exc' else SimInterrupt
@@ -184,6 +216,8 @@ def check_graph_order(cg, Function):
     for i, f in enumerate(cg.functionList):
         if id(f) in pos:
             bad.append('node object appears twice: positions %d and %d' % (pos[id(f)], i))
+            if len(bad) >= 3:
+                return bad
         pos[id(f)] = i
     for i, f in enumerate(cg.functionList):
         for a in f.args:
@@ -193,6 +227,8 @@ def check_graph_order(cg, Function):
                     bad.append('node %d has an argument that is not in this graph' % i)
                 elif p > i:
                     bad.append('node %d has an argument recorded after it (%d)' % (i, p))
+                if len(bad) >= 3:
+                    return bad
     return bad
 
 
@@ -210,6 +246,7 @@ class Client(object):
         self.ip = 0
         self.sealed = False
         self.slots = {}
+        self.last_out = None      # the objects the last completed forward evaluation returned
 
 
 class Sim(object):
@@ -344,7 +381,9 @@ class Sim(object):
             sid = spec['slot']
             obj = c.slots.get(sid)
             mode = spec['mode']
-            if mode == 'same' and obj is not None:
+            if mode == 'feedback' and c.last_out is not None and self._compatible(c.last_out[0], spec):
+                obj = c.last_out[0]
+            elif mode == 'same' and obj is not None:
                 pass
             elif mode == 'overwrite' and obj is not None and self._compatible(obj, spec):
                 a = numpy.array(spec['val'], dtype=float)
@@ -369,11 +408,13 @@ class Sim(object):
         args = [enc(x) for x in xs]
 
         def thunk():
+            c.last_out = None
             if step['api'] == 'function':
                 out = c.cg.function(xs)
             else:
                 c.cg.pushforward(xs)
                 out = [f.x for f in c.cg.dependentFunctionList]
+            c.last_out = list(out)
             return enc(out)
         return args, thunk, xs
 
@@ -418,16 +459,17 @@ class Sim(object):
             if fault['kind'] in ('node_fwd', 'node_rev'):
                 FAULTS.arm(fault['kind'], int(fault['frac'] * n_nodes), fault['exc'])
             else:
-                total = self.dry_run_lines(thunk)
-                line_n = 1 + int(fault['frac'] * total) if total > 0 else None
+                total, line_n = self.dry_run_lines(thunk, fault)
                 ev['line_total'] = total
+                ev['line_n'] = line_n
         err = numpy.errstate(all='raise') if step.get('errstate') else numpy.errstate()
         try:
             with err:
                 if line_n is not None:
                     self.line.start(line_n, fault['exc'])
                 try:
-                    out = thunk()
+                    with env.cpu_limit():
+                        out = thunk()
                 finally:
                     if line_n is not None:
                         self.line.stop()
@@ -436,6 +478,8 @@ class Sim(object):
             if isinstance(e, (SystemExit, GeneratorExit)):
                 raise
             ev['out'] = ['exc', type(e).__name__]
+            if isinstance(e, env.CallTimeout):
+                ev['timeout'] = True
         finally:
             if fault is not None:
                 fired = FAULTS.fired if fault['kind'].startswith('node') else self.line.fired
@@ -447,22 +491,40 @@ class Sim(object):
         if op in ('fwd', 'drv') and ev['out'][0] == 'ok':
             ev['fwd_args'] = [enc(f.x) for f in c.cg.independentFunctionList]
 
-    def dry_run_lines(self, thunk):
-        """Count the line events of the call in a forked copy of this process
-        (the call itself must not happen twice here)."""
+    def dry_run_lines(self, thunk, fault):
+        """Run the call in a forked copy of this process (the call itself must not happen
+        twice here), count its line events and choose the event at which to interrupt."""
         r, w = os.pipe()
         pid = os.fork()
         if pid == 0:
             code = 0
             try:
                 os.close(r)
+                # alarms are not inherited across fork: bound the dry run on its own
+                signal.signal(signal.SIGALRM, signal.SIG_DFL)
+                signal.alarm(40)
+                by_loc = fault.get('by') == 'loc'
+                self.line.locs = [] if by_loc else None
                 self.line.start(None, 'exc')
                 try:
-                    thunk()
+                    with env.cpu_limit():
+                        thunk()
                 except BaseException:
                     pass
                 self.line.stop()
-                os.write(w, str(self.line.count).encode())
+                total = self.line.count
+                n = 0
+                if total > 0:
+                    if by_loc:
+                        visits = {}
+                        for i, loc in enumerate(self.line.locs):
+                            visits.setdefault(loc, []).append(i + 1)
+                        keys = sorted(visits)
+                        occ = visits[keys[int(fault['frac'] * len(keys))]]
+                        n = occ[int(fault.get('frac2', 0.0) * len(occ))]
+                    else:
+                        n = 1 + int(fault['frac'] * total)
+                os.write(w, ('%d %d' % (total, n)).encode())
             except BaseException:
                 code = 1
             finally:
@@ -476,7 +538,10 @@ class Sim(object):
             data += chunk
         os.close(r)
         os.waitpid(pid, 0)
-        return int(data) if data else 0
+        if not data:
+            return 0, None
+        total, n = [int(t) for t in data.split()]
+        return total, (n or None)
 
     # ---- main loop -----------------------------------------------------------
     def execute(self):
@@ -489,11 +554,19 @@ class Sim(object):
                 if op == 'new_graph':
                     self.step_new_graph(c, step, ev)
                 elif op == 'rec':
-                    self.step_rec(c, step, ev)
+                    try:
+                        with env.cpu_limit():
+                            self.step_rec(c, step, ev)
+                    except env.CallTimeout:
+                        raise Exception('recording did not return (CPU-time watchdog)')
                 elif op == 'rec_off':
                     self.step_rec_off(c, step, ev)
                 elif op == 'seal':
                     self.step_seal(c, step, ev)
+                elif op == 'toff':
+                    if c.cg is None:
+                        raise PlanInvalid('toff before new_graph')
+                    c.cg.trace_off()
                 elif op in ('fwd', 'rev', 'drv'):
                     self.step_call(c, step, ev)
                 else:
@@ -511,6 +584,9 @@ class Sim(object):
             ev['ptr'] = self.ptr()
             ev['inv'].extend(self.invariants(before, step))
             self.events.append(ev)
+            if ev.get('timeout'):
+                # a call that does not return: nothing sensible can follow
+                return {'events': self.events, 'aborted': step['seq']}
         return {'events': self.events}
 
 
